@@ -876,15 +876,23 @@ def compile_comprehension(compiler, expr, root, parts, final):
                 .body[0]
                 .value
             )
+        def compile_value(form):
+            # A form such as `(do)` compiles to nothing at all. Its
+            # value is `None`.
+            value = compiler.compile(form)
+            if not (value.stmts or value.expr):
+                value += asty.Constant(form, value=None)
+            return value
+
         new_parts = []
         for p in parts:
             if p.tag in ("if", "do"):
-                tag_value = compiler.compile(p.value)
+                tag_value = compile_value(p.value)
             else:
                 seen_start = None if is_for else len(scope.seen)
                 target = compiler._storeize(p.value[0], compiler.compile(p.value[0]))
                 seen_end = None if is_for else len(scope.seen)
-                tag_value = [target, compiler.compile(p.value[1])]
+                tag_value = [target, compile_value(p.value[1])]
                 if not is_for:
                     scope.iterator(target, seen_start, seen_end)
             new_parts.append(Tag(p.tag, tag_value))
@@ -903,11 +911,11 @@ def compile_comprehension(compiler, expr, root, parts, final):
             key = elt = None
             if node_class is asty.DictComp:
                 if dict_unpack:
-                    key = compiler.compile(final[1])
+                    key = compile_value(final[1])
                 else:
-                    key, elt = map(compiler.compile, final)
+                    key, elt = map(compile_value, final)
             else:
-                elt = compiler.compile(final)
+                elt = compile_value(final)
 
         ends_with_unpack = not is_for and (dict_unpack or (elt and isinstance(elt.expr, ast.Starred)))
 
@@ -937,10 +945,9 @@ def compile_comprehension(compiler, expr, root, parts, final):
                 nonlocal elt, ends_with_unpack, any_async
                 if not parts:
                     if is_for:
-                        if body:
-                            bd = compiler._compile_branch(body)
-                            return bd + bd.expr_as_stmt()
-                        return Result(stmts=[asty.Pass(expr)])
+                        bd = compiler._compile_branch(body)
+                        bd += bd.expr_as_stmt()
+                        return bd if bd.stmts else Result(stmts=[asty.Pass(expr)])
                     if ends_with_unpack:
                         ends_with_unpack = False
                         to_loop = Result(
